@@ -159,6 +159,15 @@ func c15Prepare(t *rapid.T) (*c15State, func()) {
 		s.present[dig("sha256", a)] = true
 		s.manifests[dig("sha256", a)] = true
 	}
+	// referrers whose descriptor alone exceeds Referrer.Limit: one is the only referrer of the index, one shares the image
+	// subject with the small ones under its own artifactType (so the filtered listing has nothing that fits on a page)
+	for i, sub := range []mdesc{{MediaType: mtIndex, Digest: ixd, Size: int64(len(s.idx))}, {MediaType: mtImage, Digest: id, Size: int64(len(s.img))}} {
+		sub := sub
+		a, _ := buildImage(mtImage, mtConfig, cd, 2, nil, nil, &sub, "application/vnd.x.big", map[string]string{"i": fmt.Sprint(i), "pad": strings.Repeat("y", 900)})
+		must(doReq(srv, "PUT", "/v2/r1/manifests/"+dig("sha256", a), a, hdr("Content-Type", mtImage)), 201, "oversized artifact")
+		s.present[dig("sha256", a)] = true
+		s.manifests[dig("sha256", a)] = true
+	}
 	if s.kind == "populated-sessions" {
 		for i := 0; i < 2; i++ {
 			r := doReq(srv, "POST", "/v2/r1/blobs/uploads/", nil, nil)
@@ -255,7 +264,7 @@ func c15Gen(t *rapid.T, s *c15State) c15Req {
 		case "digest-algorithm":
 			v = rapid.SampledFrom([]string{"sha256", "sha512", "sha384", "md5", "", "SHA256", "sha256:x"}).Draw(t, "qAlg")
 		default:
-			v = rapid.SampledFrom([]string{"", "application/vnd.x.a", "v1", "zzz", strings.Repeat("y", 300)}).Draw(t, "qVal")
+			v = rapid.SampledFrom([]string{"", "application/vnd.x.a", "application/vnd.x.big", "v1", "zzz", strings.Repeat("y", 300)}).Draw(t, "qVal")
 		}
 		qs.Add(name, v)
 		if rapid.IntRange(0, 9).Draw(t, "dup:"+name) == 0 {
@@ -316,8 +325,16 @@ func c15Property(t *rapid.T, st *Stats) {
 		st.Case(trace, nontrivial, cl...)
 	}()
 	n := rapid.IntRange(1, 15).Draw(t, "nRequests")
+	var prev c15Req
 	for i := 0; i < n; i++ {
-		q := c15Gen(t, s)
+		var q c15Req
+		if i > 0 && rapid.IntRange(0, 4).Draw(t, "repeatPrevious") == 0 {
+			q = prev // the same request again: answered from whatever the first one cached or left behind
+			classes["repeated-request"] = true
+		} else {
+			q = c15Gen(t, s)
+		}
+		prev = q
 		r := doReq(s.srv, q.method, q.target, q.body, q.opt)
 		line := fmt.Sprintf("%s %s hdr=%v bodyLen=%d unknownLen=%v -> %d", q.method, trunc([]byte(q.target), 300), q.opt.hdr, len(q.body), q.opt.unknownCL, r.code)
 		trace = append(trace, line)
